@@ -11,12 +11,19 @@
 //            pre/post = <n> { <line> | :r <cond> <k> <line> } ; cond = :eq | :ne | :lt | :ge
 //            ":r c k A B" behaves as A in the runs of this test whose number (0,1,2,... = static counter in the test) satisfies c k, as B in
 //            the others; a conditional plugin line is reported only in the matching runs (static counter in the plugin).
+//            optional suffix  :io <sink> <sep> <verbose> <color> <cap>  = console mode: the run goes through CommandLineTestRunner and the REAL
+//            ConsoleTestOutput / stdio (no capture of PlatformSpecificFPuts), descriptor 1 redirected to a pipe (sink 1) or a regular file
+//            (sink 2), stdout fully buffered with a buffer of <cap> bytes, -p / -v / -c as given; afterwards the stream is flushed (as exit
+//            does) and the captured BYTES are read back.  Observation in that mode:
+//              :io <escaped> <ret|~> <n> { :f test file line kind | :s ok nfail|~ tests run checks ignored filtered }   (in file order)
 // Observation: <escaped> <ret|~> <nreps> { <nev> {test phase idx depth} <nfail> {test file line kind} <nafter> {depth ctx_ok}
 //              (~ | :s ok nfail|~ tests run checks ignored filtered) (~ | :k tests run checks fail filtered ignored) }
 #include "hlib.h"
 #include <map>
 #include <stdexcept>
 #include <unistd.h>
+#include <fcntl.h>
+#include <sys/stat.h>
 #include <climits>
 #define private public
 #define protected public
@@ -50,6 +57,8 @@ struct TestDef {
 };
 struct Entry { char kind; int a, b, c, d; std::string text; };   // 'E' event, 'T' text chunk, 'A' after-test mark
 static std::vector<Entry> gLog;
+static TestRegistry* gSepRegistry;       // -p: every test runs in a forked child, whose statics die with it; the number of the repetition is
+                                         // then read from the registry (it lives in the runner's process and is copied by fork)
 static UtestShell* gOutsideTest; static TestResult* gOutsideResult;
 static const char* const FILES[3] = { "tst.cpp", "oth.cpp", "plg.cpp" };
 static char gMsg[64];
@@ -166,7 +175,7 @@ static void execPhase(TestDef* d, int ph, unsigned long long run)
 
 class ScriptedUtest : public Utest {
 public:
-    explicit ScriptedUtest(TestDef* d) : d_(d), run_(d->created++) {}     // how many times this test has been created before
+    explicit ScriptedUtest(TestDef* d) : d_(d), run_(gSepRegistry ? (unsigned long long)gSepRegistry->getCurrentRepetition() : d->created++) {}     // how many times this test has been created before
     void setup() CPPUTEST_OVERRIDE { execPhase(d_, 0, run_); }
     void testBody() CPPUTEST_OVERRIDE { execPhase(d_, 1, run_); }
     void teardown() CPPUTEST_OVERRIDE { execPhase(d_, 2, run_); }
@@ -191,8 +200,8 @@ static std::map<UtestShell*, TestDef*> gDefOf;
 class FailPlugin : public TestPlugin {
 public:
     FailPlugin() : TestPlugin("VerifFailPlugin") {}
-    void preTestAction(UtestShell& t, TestResult& r) CPPUTEST_OVERRIDE { TestDef* d = gDefOf[&t]; add(t, r, d->pre, d->preCalls++); }
-    void postTestAction(UtestShell& t, TestResult& r) CPPUTEST_OVERRIDE { TestDef* d = gDefOf[&t]; add(t, r, d->post, d->postCalls++); }
+    void preTestAction(UtestShell& t, TestResult& r) CPPUTEST_OVERRIDE { TestDef* d = gDefOf[&t]; add(t, r, d->pre, gSepRegistry ? (unsigned long long)gSepRegistry->getCurrentRepetition() : d->preCalls++); }
+    void postTestAction(UtestShell& t, TestResult& r) CPPUTEST_OVERRIDE { TestDef* d = gDefOf[&t]; add(t, r, d->post, gSepRegistry ? (unsigned long long)gSepRegistry->getCurrentRepetition() : d->postCalls++); }
 private:
     static void add(UtestShell& t, TestResult& r, std::vector<PLine>& lines, unsigned long long run)
     {
@@ -209,9 +218,8 @@ static void captureFlush() {}
 
 // ---------------------------------------------------------------- reading the printed text of one repetition
 static int fileId(const std::string& f) { for (int k = 0; k < 3; k++) if (f == FILES[k]) return k; return 99; }
-static void parseFailures(const std::string& txt, Out& o)
+static void failureRecords(const std::string& txt, std::vector<std::string>& recs)
 {
-    std::vector<std::string> recs;
     size_t p = 0; std::string test;
     while ((p = txt.find(": error:", p)) != std::string::npos) {
         size_t ls = txt.rfind('\n', p); ls = (ls == std::string::npos) ? 0 : ls + 1;
@@ -239,6 +247,11 @@ static void parseFailures(const std::string& txt, Out& o)
         }
         p = q;
     }
+}
+static void parseFailures(const std::string& txt, Out& o)
+{
+    std::vector<std::string> recs;
+    failureRecords(txt, recs);
     o << hx(recs.size());
     for (size_t k = 0; k < recs.size(); k++) o << recs[k];
 }
@@ -270,6 +283,46 @@ static void emitRep(size_t from, size_t to, Out& o, const std::string& counters)
     for (size_t k = from; k < to; k++) if (gLog[k].kind == 'A') o << hz(gLog[k].a) << hx(gLog[k].b);
     parseSummary(txt, o);
     o << counters;
+}
+
+// ---------------------------------------------------------------- console mode: the bytes that reached descriptor 1
+static std::string stripColour(const std::string& in)        // "\033[...m" (the -c option) is not the property's business
+{
+    std::string out;
+    for (size_t k = 0; k < in.size(); k++) {
+        if (in[k] == '\033' && k + 1 < in.size() && in[k + 1] == '[') { size_t e = in.find('m', k); if (e == std::string::npos) break; k = e; }
+        else out += in[k];
+    }
+    return out;
+}
+// the failure records and the summaries in the order they stand in the text
+static void emitFileItems(const std::string& raw, Out& o)
+{
+    const std::string txt = stripColour(raw);
+    std::vector<std::string> items;
+    size_t pos = 0;
+    for (;;) {
+        size_t a = txt.find("\nOK (", pos), b = txt.find("\nErrors (", pos);
+        size_t s = a < b ? a : b;
+        if (s == std::string::npos) break;
+        size_t e = txt.find(" ms)", s + 1);
+        size_t nl = txt.find('\n', s + 1);
+        Out one;
+        if (e != std::string::npos && (nl == std::string::npos || e < nl)) parseSummary(txt.substr(s, e + 4 - s), one);
+        if (one.s.empty() || one.s == "~") { pos = s + 1; continue; }          // not a summary line: ordinary text
+        failureRecords(txt.substr(pos, s - pos), items);
+        items.push_back(one.s);
+        pos = e + 4;
+    }
+    failureRecords(txt.substr(pos), items);
+    o << hx(items.size());
+    for (size_t k = 0; k < items.size(); k++) o << ((items[k][0] == ':') ? items[k] : ":f " + items[k]);
+}
+static std::string readAllFd(int fd)
+{
+    std::string s; char buf[65536]; ssize_t n;
+    while ((n = read(fd, buf, sizeof buf)) > 0) s.append(buf, (size_t)n);
+    return s;
 }
 
 static Cond readCond(Toks& t)
@@ -329,6 +382,14 @@ int main()
             char b[40]; snprintf(b, sizeof b, "G%d", i / 3); d.group = b;
             snprintf(b, sizeof b, "%s_%d", d.sel ? "sel" : "out", i); d.name = b;
         }
+        // console mode
+        bool console = false, sep = false, verbose = false, colour = false; int sink = 0; size_t cap = 4096;
+        if (!t.end() && t.peek() == ":io") {
+            t.sym(); console = true; sink = t.n(); sep = t.u() != 0; verbose = t.u() != 0; colour = t.u() != 0; cap = (size_t)t.u();
+            if (cap < 1) cap = 1;
+            if (cap > 65536) cap = 65536;
+            if (!cli || (sink != 1 && sink != 2)) { fprintf(stderr, "harness: console mode needs the command-line runner and sink 1 or 2\n"); exit(3); }
+        }
 #if !CPPUTEST_HAVE_EXCEPTIONS
         if (needExc) { o << "skip"; o.flush(); continue; }
 #endif
@@ -337,7 +398,7 @@ int main()
         UtestShell::currentTest_ = NULLPTR; UtestShell::testResult_ = NULLPTR;
         UtestShell::setRethrowExceptions(false); UtestShell::restoreDefaultTestTerminator();
         gOutsideTest = UtestShell::getCurrent(); gOutsideResult = gOutsideTest->getTestResult();
-        gLog.clear(); gDefOf.clear();
+        gLog.clear(); gDefOf.clear(); gSepRegistry = NULLPTR;
 
         TestRegistry reg; FailPlugin plugin; reg.installPlugin(&plugin);
         std::vector<UtestShell*> shells(nt);
@@ -368,9 +429,35 @@ int main()
             if (runign) args.push_back("-ri");
             if (filter) { args.push_back("-n"); args.push_back("sel_"); }
             char b[40]; snprintf(b, sizeof b, "-r%llu", repeat); args.push_back(b);
+            if (sep) { args.push_back("-p"); gSepRegistry = &reg; }
+            if (verbose) args.push_back("-v");
+            if (colour) args.push_back("-c");
             std::vector<const char*> av; for (size_t k = 0; k < args.size(); k++) av.push_back(args[k].c_str());
             void (*savedFPuts)(const char*, PlatformSpecificFile) = PlatformSpecificFPuts; void (*savedFlush)() = PlatformSpecificFlush;
-            PlatformSpecificFPuts = captureFPuts; PlatformSpecificFlush = captureFlush;
+            int savedStdout = -1, readFd = -1;
+            static char ioBuffer[65536];
+            if (!console) { PlatformSpecificFPuts = captureFPuts; PlatformSpecificFlush = captureFlush; }
+            else {
+                // the real ConsoleTestOutput on the real stdio stream: descriptor 1 becomes a pipe or a regular file, stdout fully buffered
+                fflush(stdout);
+                savedStdout = dup(1);
+                int writeFd = -1;
+                if (sink == 1) {
+                    int pp[2];
+                    if (pipe(pp) != 0) { perror("harness: pipe"); exit(3); }
+                    readFd = pp[0]; writeFd = pp[1];
+                    if (fcntl(writeFd, F_SETPIPE_SZ, 1 << 20) < 0) { perror("harness: F_SETPIPE_SZ"); exit(3); }
+                } else {
+                    char path[] = "/tmp/c01-stdout-XXXXXX";
+                    writeFd = mkstemp(path);
+                    if (writeFd < 0) { perror("harness: mkstemp"); exit(3); }
+                    readFd = open(path, O_RDONLY);
+                    unlink(path);
+                }
+                if (savedStdout < 0 || readFd < 0 || dup2(writeFd, 1) < 0) { perror("harness: redirect"); exit(3); }
+                close(writeFd);
+                setvbuf(stdout, ioBuffer, _IOFBF, cap);
+            }
             int rv = 0;
             {
                 CommandLineTestRunner* runner = new CommandLineTestRunner((int)av.size(), av.data(), &reg);
@@ -383,6 +470,19 @@ int main()
             }
             PlatformSpecificFPuts = savedFPuts; PlatformSpecificFlush = savedFlush;
             if (!escaped) ret = hz(rv);
+            if (console) {
+                fflush(stdout);                               // what exit() does when main returns the runner's value
+                dup2(savedStdout, 1); close(savedStdout);     // (the only write end of the pipe is gone with this)
+                setvbuf(stdout, NULL, _IONBF, 0);
+                std::string bytes = readAllFd(readFd);
+                close(readFd);
+                gSepRegistry = NULLPTR;
+                o << ":io" << (escaped ? "1" : "0") << ret;
+                emitFileItems(bytes, o);
+                o.flush();
+                for (int i = 0; i < nt; i++) delete shells[i];
+                continue;
+            }
         }
         // split the log into repetitions: a repetition ends with the "\n\n" that follows " ms)"
         std::vector<std::pair<size_t, size_t> > reps; size_t from = 0; bool sawMs = false;
